@@ -90,12 +90,15 @@ def handle (args : List String) : Option String :=
     let remote ← remote.toNat?
     let st0 ← parseMask st0
     let rr ← parseBool rr
-    let rt ← parseBool rt
+    -- the field carries two measured behaviours of features.go: bit 0 = rt, bit 1 = sk
+    let fl ← rt.toNat?
+    let rt := fl % 2 == 1
+    let sk := fl / 2 % 2 == 1
     let others ← mapM? parseOther (splitList others)
     let clear ← mapM? (fun seg => mapM? parseUnit (splitList seg)) (splitList clear '/')
     let prot ← mapM? parsePItem (splitList prot)
     let oracle ← mapM? parseOracle (splitList oracle)
-    let cfg : Cfg := { tee := tee != 0, rr := rr, rt := rt, others := others }
+    let cfg : Cfg := { tee := tee != 0, rr := rr, rt := rt, sk := sk, others := others }
     let inp : Input := { clear := clear, prot := prot, oracle := oracle }
     let env : Env := { domain := domain, remote := remote, captured := if explicit then some .explicit else none }
     let r := run cfg env st0 inp (4 * unitCount inp + 8)
